@@ -58,7 +58,13 @@ func (w *World) checkAssert(g *G, c *Term, label string, obj Value) {
 		w.stats.TrivialObl++
 		return
 	}
-	r, model := w.sol.Check(w.pc, w.tt.Not(c), true)
+	var r Result
+	var model map[string]uint64
+	if c.IsFalse() {
+		r = Sat // the path itself is feasible; a model is computed only if the violation is kept
+	} else {
+		r, model = w.sol.Check(w.pc, w.tt.Not(c), true)
+	}
 	switch r {
 	case Unsat:
 		w.stats.Discharged++
